@@ -7,16 +7,16 @@ import tgen
 
 PROP = "C07"
 LEVEL = "proof"
-GEN_UNITS = ["GenUtils", "GenUtils3b", "GenSptensor4", "GenKtensor4"]   # Props/C07Gen4.v + Props/W4C07.v: the generated whole methods sptensor.permute / ktensor.permute; Props/C07w3.v: sparse reshape over the generated tt_sub2ind / tt_ind2sub; Props/C07w4.v: requests over the generated parse_one_d / parse_shape
-COQ_TARGETS = ["Props/C07.vo", "Props/C07w3.vo", "Props/C07w4.vo", "Props/C07w5.vo", "Model/C07W5.vo", "Props/C07Gen4.vo", "Props/W4C07.vo", "Model/C07Gen4.vo", "Model/C07Harness.vo", "Model/C07Harness2.vo", "Model/C07Gen.vo",
+GEN_UNITS = ["GenUtils", "GenUtils3b", "GenSptensor4", "GenSptensor4b", "GenSptensor4d", "GenKtensor4"]   # Props/C07Gen4.v + Props/W4C07.v / W4C07b.v / W4C07d.v: the generated whole methods sptensor.permute / squeeze / reshape, ktensor.permute; Props/C07w3.v: sparse reshape over the generated tt_sub2ind / tt_ind2sub; Props/C07w4.v: requests over the generated parse_one_d / parse_shape
+COQ_TARGETS = ["Props/C07.vo", "Props/C07w3.vo", "Props/C07w4.vo", "Props/C07w5.vo", "Model/C07W5.vo", "Props/C07Gen4.vo", "Props/W4C07.vo", "Props/W4C07b.vo", "Props/W4C07d.vo", "Model/C07Gen4.vo", "Model/C07Harness.vo", "Model/C07Harness2.vo", "Model/C07Gen.vo",
                "Model/C07Req.vo", "Model/C07Impl.vo", "Model/Harness.vo"]
 THEOREM_FILES = ["Props/C07.v", "Props/C07w3.v", "Props/C07w4.v", "Props/C07w5.v", "Props/C07Gen4.v",
-                 "Props/W4C07.v"]    # W4C07.v is the translator builder's file (sptensor.ones / permute generated, bridged to permute_sp): claimed here like C04 claims W3C04.v
+                 "Props/W4C07.v", "Props/W4C07b.v", "Props/W4C07d.v"]    # W4C07.v is the translator builder's file (sptensor.ones / permute generated, bridged to permute_sp): claimed here like C04 claims W3C04.v
 COQ_IMPORTS = ("From Coq Require Import List ZArith Bool.\n"
                "From PV Require Import Base.Index Base.Perm Np.Array Model.Sparse Model.Repr Model.Harness "
                "Model.C07Ops Model.C07Harness Model.C07Ops2 Model.C07Harness2 Np.NpZ Gen.GenUtils Model.C07Gen "
                "Np.NpZ2 Np.NpZ3 Np.NpZ3b Gen.GenUtils3b Model.C07Req Model.C07Impl Model.C07W5 "
-               "Gen.GenSptensor4 Gen.GenKtensor4 Model.W4Ktensor Model.W4Sptensor Model.C07Gen4.\n")
+               "Gen.GenSptensor4 Gen.GenSptensor4d Gen.GenKtensor4 Model.W4Ktensor Model.W4Sptensor Model.C07Gen4.\n")
 RULE = ("permute: all N! orders for N<=4 (seeded sample for N=5) on shapes with distinct sizes (2,3,4,5), repeated sizes and "
         "singletons, for dense / sparse / Kruskal (rank 0..3) / Tucker with a dense core / Tucker with a sparse core (core <= "
         "2x2x2x2, stored order sorted|reversed|random, empty core included) holders; reshape: every ordered factorisation "
@@ -64,17 +64,18 @@ EXPLANATION = ("Theorems (Props/C07.v) are over the hand-written models Model/C0
                "the transliteration of sptensor.reshape as written after /repo b27c529 (mode-number test, size-sign test, size "
                "check, empty branch, generated tt_sub2ind / tt_ind2sub; Props/C07w5.v bridges it to the request-level "
                "specification); dense squeeze follows the repaired `shape != 1` tests (size-0 modes are kept); boolean orders "
-               "are refused by sparse / dense / Tucker holders and read as 1 / 0 by ktensor.permute. No finding is open: "
-               "nothing is attributed.")
+               "are refused by sparse / dense / Tucker holders and read as 1 / 0 by ktensor.permute. Open finding N-C07-7 "
+               "(sptensor.squeeze with a size-0 mode) is attributed only on squeeze_sp of a shape with a 0.")
 CORRESPONDENCE_ONLY = []
 ASSUMPTIONS = ["numpy transpose / F-order reshape / squeeze semantics as defined in Np/Array.v (np_transpose, np_reshapeF)",
                "np.ravel_multi_index / np.unravel_index / negative-index wrap as defined in Np/NpZ.v (used by the generated "
                "tt_sub2ind / tt_ind2sub); the statements of sptensor.reshape around the two helper calls are transliterated by hand "
                "(Model/C07Gen.v)",
                "the numpy / Python primitives of Np/NpZ3.v, NpZ3b.v (ndarray records, squeeze, np.array of a list / tuple) and Np/NpZ4.v, "
-               "NpZ4b.v (np.sort, take, column gather, constructor guards spt_make_ok / kt_make_ok) used by the generated parse_one_d / "
-               "parse_shape / sptensor.permute / ktensor.permute (validated by the primitive-level streams of the translator's own checks "
-               "W3GEN / W4GEN); the translator tools/pyx2v.py itself",
+               "NpZ4b.v, NpZ4d.v, NpZ4e.v (np.sort, take, column gather, np.where, setdiff1d, hstack, constructor guards spt_make_ok / kt_make_ok) "
+               "used by the generated parse_one_d / parse_shape / sptensor.permute / sptensor.squeeze / sptensor.reshape / ktensor.permute "
+               "(validated by the primitive-level streams of the translator's own checks W3GEN / W4GEN); the translator tools/pyx2v.py "
+               "itself; np.unravel_index's refusal of a 0-d target is guarded in the generated text / in reshape_sp_code, not in the primitive",
                "ktensor.full / ttensor.full compute tabulate(shape, den) (proved for pyttb's algorithms under C01); C07 only "
                "uses them to route Kruskal / Tucker holders to tensor.reshape / tensor.squeeze, which pyttb does not offer on "
                "ktensor / ttensor"]
@@ -766,6 +767,33 @@ def gen_w5(rng, big):
         cases.append(Case("chain", {"holder": "d", "shape": shp, "data": [], "steps": steps, "law": None, "layout": None}, False))
         cases.append(Case("chain", {"holder": "d", "shape": shp, "data": [], "law": "rs", "layout": None,
                                     "steps": [["reshape", with_ones(rng, sq)], ["squeeze"]]}, False))
+    # ---------------- SPARSE holders with a size-0 mode (they come out of tensor.to_sptensor(); the validating constructor
+    # refuses such shapes): squeeze must keep the size-0 modes like tensor.squeeze (open N-C07-7), permute / reshape answer
+    for shp in [[2, 0, 1], [1, 0], [0], [0, 3], [1, 0, 1, 3], [2, 0], [0, 1], [1, 1, 0]]:
+        N = len(shp)
+        Z0 = {"shape": shp, "subs": [], "vals": [], "via": "to_sptensor"}
+        cases.append(Case("squeeze_sp", dict(Z0), False))
+        for p in rng.sample(list(itertools.permutations(range(N))), min(math.factorial(N), 2)):
+            cases.append(Case("permute_sp", dict(Z0, p=list(p)), False))
+        for tgt in [[0], [0, 4], [3, 0, 1]]:
+            cases.append(Case("reshape_sp", dict(Z0, new=tgt, old=None), False))
+        cases.append(Case("reshape_sp", dict(Z0, new=[1], old=None), False))          # 0 cells -> 1 cell: refused
+        k0 = shp.index(0)
+        cases.append(Case("reshape_sp", dict(Z0, new=[0, 2], old=[k0]), False))
+    # ---------------- a target WITHOUT modes ((), []): refused by tensor.reshape and sptensor.reshape — also where it would only
+    # fold singleton modes away (1 x 3 x 2, old_modes 0) — with and without stored entries
+    for shp in [[1], [1, 1], [1, 1, 1], [2, 3], [1, 3, 2], [2, 1, 3]]:
+        N = len(shp)
+        for form in ["tuple", "list"]:
+            data = tgen.rand_dense(rng, shp, 1.0)
+            cases.append(Case("reshape_d", {"shape": shp, "data": data, "new": [], "sform": form}, False))
+            for fill in [0.0, 1.0]:
+                subs, vals = rand_sparse(rng, shp, fill)
+                cases.append(Case("reshape_sp", {"shape": shp, "subs": subs, "vals": vals, "new": [], "old": None, "sform": form}, False))
+                for k in [j for j, d in enumerate(shp) if d == 1][:2]:
+                    subs, vals = rand_sparse(rng, shp, fill)
+                    cases.append(Case("reshape_sp", {"shape": shp, "subs": subs, "vals": vals, "new": [], "old": [k], "oldz": [k],
+                                                     "sform": form, "oform": rng.choice(["scalar", "list", None])}, False))
     # ---------------- sparse subset reshape: mode numbers outside 0..N-1 in every spelling (bare int, list, tuple, int8 array,
     # array), alone and next to valid modes, on tensors with and without stored entries; negative sizes in the target of a
     # subset reshape and of a full reshape, with and without stored entries
@@ -818,7 +846,7 @@ def gen_w5(rng, big):
     for n in [6, 8, 12] + ([24, 30] if big else []):
         for src in [[n], [1, n], [n, 1], [1, 1, n], [1, n, 1]]:
             for tgt in [f for f in ordered_factorisations(n) if len(f) >= 2][: (8 if big else 3)]:
-                for lay in ([None] + DENSE_LAYOUTS if big else [None, rng.choice(DENSE_LAYOUTS)]):
+                for lay in ([None] + rng.sample(DENSE_LAYOUTS, 4) if big else [None, rng.choice(DENSE_LAYOUTS)]):
                     data = tgen.rand_dense(rng, src, 1.0)
                     if len(set(data)) < 2:
                         data[0] += 1
@@ -1235,7 +1263,8 @@ def run_impl(c):
             elif c.op == "squeeze_sp":
                 R = S.squeeze()
             elif "oldz" in a:
-                R = S.reshape(tuple(a.get("newz", a["new"])), _int_arg(np, a["oldz"], a.get("oform")))
+                tgt_ = tuple(a["newz"]) if "newz" in a else _int_arg(np, a["new"], a["sform"]) if a.get("sform") else tuple(a["new"])
+                R = S.reshape(tgt_, _int_arg(np, a["oldz"], a.get("oform")))
             elif a["old"] is None:
                 R = S.reshape(tuple(a["newz"]) if "newz" in a else _int_arg(np, a["new"], a["sform"]) if a.get("sform") else tuple(a["new"]))
             elif a.get("old_int"):
@@ -1511,6 +1540,11 @@ def coq_check(c, o):
         xs = _gshp(a["newz"], "tuple") if "newz" in a else _gshp(a["new"], a.get("sform") or "tuple")
         om = f"(Some {_gzl(a['oldz'])})" if "oldz" in a else "None" if a["old"] is None else f"(Some {_gzl(a['old'])})"
         code = f"os_ok (res_opt (reshape_sp_code {S} {xs} {om})) {obs}"
+        # request -> GENERATED parse_shape -> GENERATED sptensor.reshape (Gen/GenSptensor4d.v; Model/C07Gen4.v sptensor_reshape_req)
+        es, ev = _eff_sparse(a, o)
+        Zs = f"(mkspt {gzmat(es)} {gzlist(ev)} {gzlist(a['shape'])})"
+        code = (f"andb ({code}) (match sptensor_reshape_req {Zs} {xs} {om} with "
+                f"Ok t => os_ok (Some (to_Sp t)) {obs} | Err => os_ok None {obs} end)")
         if "oldz" in a:            # mode numbers as written (negative / out of range: not modes of the tensor)
             return f"andb (os_ok (reshape_sp_req {S} {xs} {_gzl(a['oldz'])}) {obs}) ({code})"
         if "newz" in a or a.get("sform"):
@@ -1620,9 +1654,17 @@ def coq_check(c, o):
             if not tgen.all_int(ob["vals"]) or ob["nnz"] != len(ob["subs"]):
                 return "false"
             fin = f"(SqT {tgen.gsparse(ob['shape'], ob['subs'], ob['vals'])})"
-        # operation model and sptensor.squeeze's return statements as written (Model/C07Impl.v)
-        return (f"andb (sqs_ok (squeeze_sp 0%Z {S}) {fin}) "
-                f"(match squeeze_sp_impl 0%Z {S} with Some r => sqs_ok r {fin} | None => false end)")
+        if 0 in a["shape"]:
+            # a holder with a size-0 mode (out of tensor.to_sptensor()): the demanded behaviour only (Model/C07W5.v squeeze_sp_any:
+            # the size-0 modes are kept, like tensor.squeeze); the code as written still tests `shape > 1`: open N-C07-7
+            return f"sqs_ok (squeeze_sp_any 0%Z {S}) {fin}"
+        # demanded behaviour on every shape, operation model and sptensor.squeeze's return statements as written (Model/C07Impl.v)
+        # ... and the GENERATED whole method (Gen/GenSptensor4b.v through Model/C07Gen4.v sptensor_squeeze_res)
+        es, ev = _eff_sparse(a, o)
+        Zs = f"(mkspt {gzmat(es)} {gzlist(ev)} {gzlist(a['shape'])})"
+        return (f"andb (andb (andb (sqs_ok (squeeze_sp_any 0%Z {S}) {fin}) (sqs_ok (squeeze_sp 0%Z {S}) {fin})) "
+                f"(match squeeze_sp_impl 0%Z {S} with Some r => sqs_ok r {fin} | None => false end)) "
+                f"(match sptensor_squeeze_res {Zs} with Some r => sqs_ok r {fin} | None => false end)")
     raise ValueError(c.op)
 
 
@@ -1708,7 +1750,7 @@ def _table_step(shape, tab, st, kind="sp"):
         oshape = [shape[k] for k in old]
         return ([shape[k] for k in keep] + list(new),
                 {tuple([i[k] for k in keep] + _unlin(new, _lin(oshape, [i[k] for k in old]))): v for i, v in tab.items()})
-    keepi = [k for k, d in enumerate(shape) if (d != 1 if kind == "d" else d > 1)]
+    keepi = [k for k, d in enumerate(shape) if d != 1]
     return [shape[k] for k in keepi], {tuple(i[k] for k in keepi): v for i, v in tab.items()}
 
 
@@ -1828,7 +1870,9 @@ def oracle(c, o):
         return None            # a float / matrix / nested list is not an order or a shape: refusing it is fine
     if "newz" in a and any(x < 0 for x in a["newz"]):
         return None if "exc" in o else f"negative sizes {a['newz']} accepted: result shape {o.get('ok', {}).get('shape')}"
-    if "oldz" in a and "exc" in o:
+    if c.op in ("reshape_d", "reshape_sp") and not a["new"] and "exc" in o:
+        return None            # a target without modes refused
+    if "oldz" in a and "exc" in o and any(not 0 <= x < N for x in a["oldz"]):
         return None            # a mode number outside 0..N-1 refused
     zeros_ok = 0 in a.get("vals", [])
     for dob in [o.get("ok"), o.get("dense"), (o.get("ok") or {}).get("core") if isinstance(o.get("ok"), dict) else None]:
@@ -1983,7 +2027,7 @@ def oracle(c, o):
     if c.op in ("squeeze_d", "squeeze_sp"):
         if "exc" in o:
             return f"squeeze raised {o['exc']}: {o.get('msg')}"
-        keepi = [k for k, d in enumerate(shp) if (d != 1 if c.op == "squeeze_d" else d > 1)]   # a size-0 mode is no singleton
+        keepi = [k for k, d in enumerate(shp) if d != 1]   # a size-0 mode is no singleton: it is kept (dense and sparse)
         nshape = [shp[k] for k in keepi]
         if c.op == "squeeze_d":
             if not keepi:
@@ -2006,7 +2050,31 @@ def oracle(c, o):
 
 
 # ---------------------------------------------------------------------------------------- known findings
-# None open.  N-C07-1 (50c170a), N-C07-2 (5dc7c44), N-C07-3 / N-C07-4 (b27c529), N-C07-5 (9c8fdd5), N-C07-6 (649a706) are repaired
-# in /repo: model, comparer and oracle accept only the repaired behaviour, the witness inputs are ordinary regression cases at
-# the head of gen_w5 and their input classes are ordinary stream classes (no trigger, no attribution): a regression is
-# reported as a VIOLATION.
+# OPEN: N-C07-7 (found in wave 5) sptensor.squeeze with a size-0 mode — the sparse sibling of the repaired N-C07-6: the tests
+# `shape > 1` treat a size-0 mode like a singleton, so T(2,0,1).to_sptensor().squeeze() has shape (2,) (2 cells out of 0) and
+# shape (1,0) / (0,) answer with the scalar 0.0; tensor.squeeze answers (2,0) / (0,).  Trigger = exactly squeeze_sp on a shape
+# with a 0.  Proposed fixes/C07-N-C07-7.diff.
+# REPAIRED in /repo: N-C07-1 (50c170a), N-C07-2 (5dc7c44), N-C07-3 / N-C07-4 (b27c529), N-C07-5 (9c8fdd5), N-C07-6 (649a706): model,
+# comparer and oracle accept only the repaired behaviour, the witness inputs are ordinary regression cases at the head of gen_w5
+# and their input classes are ordinary stream classes (no trigger, no attribution): a regression is reported as a VIOLATION.
+def _trig_sq_sp_zero(c):
+    return c.op == "squeeze_sp" and 0 in c.args["shape"]
+
+
+TRIGGERS = {"squeeze_sparse_zero_mode": _trig_sq_sp_zero}
+
+
+def _wit_sq_sp_zero():
+    import numpy as np
+    import pyttb as ttb
+    S = ttb.tensor(np.zeros((2, 0, 1))).to_sptensor()
+    try:
+        R = S.squeeze()
+    except Exception as ex:
+        return f"tensor(np.zeros((2,0,1))).to_sptensor().squeeze() raised {type(ex).__name__}: {ex}"
+    if isinstance(R, ttb.sptensor) and tuple(int(d) for d in R.shape) == (2, 0):
+        return None
+    return f"tensor(np.zeros((2,0,1))).to_sptensor().squeeze() returned {('shape ' + str(tuple(int(d) for d in R.shape))) if isinstance(R, ttb.sptensor) else repr(R)}, tensor.squeeze gives shape (2, 0)"
+
+
+WITNESSES = {"N-C07-7": _wit_sq_sp_zero}
